@@ -417,9 +417,9 @@ impl<T: Case> Case for Outer<T> {
 }
 
 #[derive(Deserialize)]
-#[serde(bound(deserialize = "C: Deserialize<'de>, A: palette::stimulus::Stimulus + Deserialize<'de>"))]
-pub struct OuterOpt<C, A> {
+#[serde(bound(deserialize = "C: Deserialize<'de>"))]
+pub struct OuterOpt<C> {
     pub id: u8,
     #[serde(flatten, deserialize_with = "palette::serde::deserialize_with_optional_alpha")]
-    pub color: palette::Alpha<C, A>,
+    pub color: palette::Alpha<C, f32>,
 }
